@@ -157,7 +157,17 @@ def render(L, toks):
             exts.append(e)
     head = b""
     if exts:
-        head = b"require [" + b", ".join(b'"%s"' % e.encode() for e in exts) + b"];" + eol
+        form = L.next(3, "reqform")
+        if form == 0:
+            head = b"require [" + b", ".join(b'"%s"' % e.encode() for e in exts) + b"];" + eol
+        elif form == 1:
+            # one require command per extension (string form), first one repeated at the end
+            head = b"".join(b'require "%s";' % e.encode() + eol for e in exts + exts[:1])
+        else:
+            half = (len(exts) + 1) // 2
+            head = b"require [" + b", ".join(b'"%s"' % e.encode() for e in exts[:half]) + b"];" + eol
+            if exts[half:]:
+                head += b"require [" + b", ".join(b'"%s"' % e.encode() for e in exts[half:]) + b"];" + eol
     cpos = L.next(3, "comment")
     out = head
     for i, t in enumerate(toks):
